@@ -40,6 +40,32 @@ def faulted_bytes(data, d):
     raise ValueError("unknown fault %r" % (what,))
 
 
+class ShortRaw(io.RawIOBase):
+    """A raw byte stream over fixed data whose FIRST read returns fewer bytes than asked
+    for although more data follows (as a pipe, a FIFO or a network file system may do);
+    later reads deliver the rest and b"" only at the real end.  Perfectly legal behaviour
+    of a raw stream: a reader must go on until it sees the empty read."""
+
+    def __init__(self, data, first):
+        super().__init__()
+        self._data = data
+        self._pos = 0
+        self._first = max(1, min(first, len(data))) if data else 0
+        self.name = "<short-read>"
+
+    def readable(self):
+        return True
+
+    def readinto(self, b):
+        if self._pos >= len(self._data):
+            return 0
+        limit = self._first if self._pos < self._first else len(self._data)
+        n = min(len(b), limit - self._pos)
+        b[:n] = self._data[self._pos:self._pos + n]
+        self._pos += n
+        return n
+
+
 class IOFaults:
     def __init__(self, root, directive, scratch):
         self.root = os.path.realpath(root)
@@ -47,6 +73,7 @@ class IOFaults:
         self.scratch = scratch
         self.opens = []          # relative paths opened under root, in order
         self.fired = False
+        self.harness_error = None
         self._real_open = builtins.open
         self._real_io_open = io.open
         self._occ = {}
@@ -92,14 +119,37 @@ class IOFaults:
         except OSError:
             # nothing to tear: behave like the real open
             return self._real_open(file, *a, **k)
-        os.makedirs(self.scratch, exist_ok=True)
-        fp = os.path.join(self.scratch, "faulted.%d" % n)
-        fd = os.open(fp, os.O_WRONLY | os.O_CREAT | os.O_TRUNC, 0o600)
+        if what == "short":
+            return self._short(data, d, a, k)
         try:
-            os.write(fd, faulted_bytes(data, d))
-        finally:
-            os.close(fd)
+            os.makedirs(self.scratch, exist_ok=True)
+            fp = os.path.join(self.scratch, "faulted.%d" % n)
+            fd = os.open(fp, os.O_WRONLY | os.O_CREAT | os.O_TRUNC, 0o600)
+            try:
+                os.write(fd, faulted_bytes(data, d))
+            finally:
+                os.close(fd)
+        except OSError as e:
+            # the harness could not prepare the faulted copy (e.g. scratch full): never let
+            # that reach the code under test as if it were the injected fault
+            self.harness_error = "cannot write faulted copy: %s" % e
+            self.fired = False
+            return self._real_open(file, *a, **k)
         return self._real_open(fp, *a, **k)
+
+    def _short(self, data, d, a, k):
+        """Hand out a stream with one short read at the directive's position, honouring the
+        caller's mode / buffering / encoding like open() would."""
+        lines = data.splitlines(keepends=True)
+        li = max(0, min(int(d.get("line", 0)), len(lines)))
+        first = sum(len(x) for x in lines[:li]) + int(d.get("col") or 0)
+        mode = a[0] if a else k.get("mode", "r")
+        buffering = a[1] if len(a) > 1 else k.get("buffering", -1)
+        raw = ShortRaw(data, first)
+        if "b" in mode:
+            return raw if buffering == 0 else io.BufferedReader(raw)
+        return io.TextIOWrapper(io.BufferedReader(raw), encoding=k.get("encoding"), errors=k.get("errors"),
+                                newline=k.get("newline"))
 
     def __enter__(self):
         builtins.open = self._open
